@@ -27,6 +27,11 @@ def slug(s):
     return re.sub(r'[^A-Za-z0-9_.-]+', '_', s)[:80]
 
 
+# number of payload catalogues a thorough run covers (cheap explorations cover all 8)
+THOROUGH_CATALOGUES = {'C01': 2, 'C02': 2, 'C03': 4, 'C04': 2, 'C05': 8, 'C06': 8, 'C07': 1, 'C08': 4, 'C09': 4, 'C10': 1, 'C11': 4, 'C12': 2,
+                       'C13': 8, 'C14': 8, 'C15': 4, 'C16': 2, 'C17': 8, 'C18': 4, 'C19': 8, 'C20': 4}
+
+
 def write_replay(pid, key, case, msg, task=None):
     d = os.path.join(VERIF, 'replays')
     if os.environ.get('VERIF_EVIDENCE_DIR'):
@@ -37,6 +42,11 @@ def write_replay(pid, key, case, msg, task=None):
         rec = {'property': pid, 'key': key, 'case': json.loads(jdump(case)), 'detail': msg}
         if task is not None:
             rec['task'] = json.loads(jdump(list(task)))
+        # the payload catalogue the case ran under (thorough tiers run several): replay uses the same one
+        seed = None
+        if task is not None and isinstance(task[1], dict) and 'seed' in task[1]:
+            seed = task[1]['seed']
+        rec['seed'] = seed if seed is not None else int(os.environ.get('VERIF_SEED', '0') or 0)
         f.write(json.dumps(rec, indent=1, sort_keys=True))
     return path
 
@@ -45,6 +55,8 @@ def do_replay(mod, path):
     with open(path) as f:
         rec = json.load(f)
     acc = Acc()
+    if rec.get('seed') is not None:
+        os.environ['VERIF_SEED'] = str(rec['seed'])
     if isinstance(rec.get('case'), dict) and rec['case'].get('kind') == 'task':
         engine.call_task(mod, rec['case']['task'][0], rec['case']['task'][1], acc)
     elif rec.get('task') and os.environ.get('VERIF_REPLAY_TASK'):
@@ -97,8 +109,18 @@ def main(argv=None):
 
     t0 = time.time()
     acc = Acc()
+    # thorough tiers run the whole exploration under several payload catalogues (VERIF_SEED, VERIF_SEED+1, ...); the
+    # enumeration structure, bounds and oracles are the same for each
+    nseeds = THOROUGH_CATALOGUES.get(pid, 1) if a.tier == 'thorough' else 1
+    kf_early = {f['key'] for f in load_known().get('findings', []) if f['property'] == pid}
     try:
-        info = mod.run(a.tier, seed, acc, a.procs) or {}
+        for k in range(nseeds):
+            info = mod.run(a.tier, seed + k, acc, a.procs) or {}
+            if any(key not in kf_early for key in acc.viol):
+                break
+        if nseeds > 1:
+            info.setdefault('bounds', {})['payload_catalogues'] = [seed + k for k in range(nseeds)]
+            info['require'] = {c: m for c, m in (info.get('require') or {}).items()}
     except Exception:
         import traceback
         print('MACHINERY-ERROR: the check driver crashed:\n' + traceback.format_exc())
